@@ -567,6 +567,65 @@ standin_symbolized_merge.prop = "C06"
 STANDINS.append(standin_symbolized_merge)
 
 
+
+def standin_parameterized_circuits(tier, seed):
+    """every transformer on circuits that still hold symbols (incl. symbolic powers of swap-like, controlled-phase and Ising gates):
+    no crash, and resolving the output equals resolving the input, for several assignments"""
+    import cirq
+    import sympy
+
+    rng = random.Random(seed + 5)
+    a, b = sympy.symbols("a b")
+    qs = cirq.LineQubit.range(3)
+    cases, fails = 0, []
+
+    def gen():
+        ops = []
+        for _ in range(rng.randrange(2, 7)):
+            x, y = rng.sample(qs, 2)
+            e = rng.choice([a, b, a + 0.5, 2 * b, 0.3, 1])
+            ops.append(rng.choice([
+                cirq.ISWAP(x, y) ** e, cirq.SWAP(x, y) ** e, cirq.FSimGate(e if isinstance(e, sympy.Basic) else 0.4, 0.2)(x, y), cirq.CZ(x, y) ** e, cirq.Z(x) ** e, cirq.X(x) ** e,
+                cirq.PhasedXPowGate(phase_exponent=e, exponent=0.5)(x), cirq.Y(x) ** 0.25, cirq.H(x), cirq.XX(x, y) ** e, cirq.CNOT(x, y) ** e, cirq.rz(e)(x),
+                cirq.PhasedXZGate(x_exponent=e, z_exponent=0.2, axis_phase_exponent=0.1)(x)]))
+        return cirq.Circuit(ops)
+
+    T = [(n, f) for n, f in _transformers() if f is not None]
+    for _ in range(12 if tier == "quick" else 150):
+        c = gen()
+        if not cirq.is_parameterized(c):
+            continue
+        for name, f in T:
+            cases += 1
+            try:
+                out = f(c, cirq.TransformerContext())
+            except Exception as ex:
+                fails.append(dict(args=dict(transformer=name, circuit=repr(c)), failed="raised-on-parameterized", clause=f"{name} raised {type(ex).__name__}: {ex} on a circuit with symbols"))
+                continue
+            for v in ({"a": 0.37, "b": -0.6}, {"a": 1.0, "b": 0.5}, {"a": 0.0, "b": 2.0}):
+                u1 = refsim.ref_unitary(cirq.resolve_parameters(c, v), qs)
+                try:
+                    u2 = refsim.ref_unitary(cirq.unroll_circuit_op(cirq.resolve_parameters(out, v), deep=True, tags_to_check=None), qs)
+                except Exception as ex:
+                    fails.append(dict(args=dict(transformer=name, circuit=repr(c), values=v), failed="output-not-resolvable", clause=f"the output of {name} cannot be resolved / evaluated: {ex!r}"))
+                    break
+                if not refsim.equal_up_to_global_phase(u1, u2, atol=1e-6):
+                    fails.append(dict(args=dict(transformer=name, circuit=repr(c), values=v, output=repr(out)[:1500]), failed="parameterized-meaning", clause=f"{name}: resolving the output at {v} differs from resolving the input (beyond a global phase)"))
+                    break
+        seen, uniq = set(), []
+        for f_ in fails:
+            k = (f_["failed"], f_["args"]["transformer"])
+            if k not in seen:
+                seen.add(k)
+                uniq.append(f_)
+        fails = uniq
+        if len(fails) >= 4:
+            break
+    return dict(function=F + "[all transformers on circuits with symbols]", case="parameterized", bound="seeded 3-qubit circuits of 2-6 gates with symbolic exponents / angles (13 gate families) x every listed transformer x 3 assignments",
+                cases=cases, distinct=cases, failures=len(fails), exhaustive=False, _fails=fails[:4])
+standin_parameterized_circuits.prop = "C06"
+STANDINS.append(standin_parameterized_circuits)
+
 def standin_subcircuit_handling(tier, seed):
     """sub-circuit operations (tagged to be ignored or not, nested, repeated) under deep=False / deep=True: tagged operations are
     found unchanged at the same nesting position, untagged sub-circuits are untouched unless deep is requested, the unitary stays"""
